@@ -534,12 +534,49 @@ def c09_second_unit(a: int, b: int, boost: int, top: int) -> bool:
     return ok
 
 
+FOREIGN_TOPS = [[''], ['', 'gtsam'], ['', 'gtsam', 'inner'], ['', 'other']]
+FOREIGN_TARGETS = [("other", "namespace other { template<T> class Box { Box(); T get() const; }; class Handle; template<T> T twice(T x); }"),
+                   ("lib::deep", "namespace lib { namespace deep { template<T> class Box { Box(); T get() const; }; class Handle; template<T> T twice(T x); } }"),
+                   ("", "template<T> class Box { Box(); T get() const; }; class Handle; template<T> T twice(T x);")]
+
+
+def c09_foreign_typedefs(top: int, target: int, order: int, kind: int) -> bool:
+    """
+    A typedef written inside the top module's namespace (or below it) that instantiates a class template, a
+    forward-declared foreign template or a function template declared in a namespace OUTSIDE the top module, for the
+    global and three non-global top modules, the foreign block before or after: every module variable the unit uses is
+    declared (once, before use), and the obligations (i)-(iv) hold.
+    pre: 0 <= top < len(FOREIGN_TOPS) and 0 <= target < len(FOREIGN_TARGETS) and 0 <= order <= 1 and 0 <= kind <= 2
+    post: _
+    """
+    top, target, order, kind = pick(top, 0, len(FOREIGN_TOPS)), pick(target, 0, len(FOREIGN_TARGETS)), pick(order, 0, 2), pick(kind, 0, 3)
+    with concrete():
+        q, block = FOREIGN_TARGETS[target]
+        qq = q + "::" if q else ""
+        td = ["typedef %sBox<gtsam::Point> BoxP;" % qq, "typedef %sHandle<gtsam::Point> HandleP;" % qq, "typedef %stwice<double> twiceD;" % qq][kind]
+        mine = "namespace gtsam { class Point { Point(); }; %s namespace inner { class Deep { Deep(); }; %s } }" % (td, td.replace(" BoxP", " BoxQ").replace(" HandleP", " HandleQ").replace(" twiceD", " twiceE"))
+        text = "\n".join([block, mine] if order == 0 else [mine, block])
+        problems = []
+        try:
+            body = pipe.pybind_body(text, top=FOREIGN_TOPS[top])
+            declared = {("gtsam", "Point"), ("gtsam", "inner", "Deep")} | {tuple(q.split("::")) + (n,) if q else (n,) for n in ("Box", "Handle", "twice")}
+            declared |= {d + ("get",) for d in list(declared) if d[-1] == "Box"}
+            problems = obligations(text, body, declared, ["T"]) + scope_problems(body)
+        except Exception as ex:
+            problems.append("raised %r" % ex)
+        ok = not problems or _fail(text=text, top=FOREIGN_TOPS[top], problems=problems[:5])
+    reached({"top": top, "target": target, "order": order, "kind": kind})
+    return ok
+
+
 def conds(tier):
     q = tier == "quick"
     t = (lambda x, y: x) if q else (lambda x, y: y)
     M = "harness.c09"
     sb = "shape-bounded"
     return [
+        xh.Cond(M, "c09_foreign_typedefs", t(180, 600), kind=sb, examples=["top=1, target=0, order=0, kind=0", "top=2, target=1, order=1, kind=1", "top=0, target=2, order=0, kind=2", "top=3, target=0, order=1, kind=0"],
+                bounds="4 top modules x 3 foreign namespaces x 2 block orders x class / forward-declared / function template"),
         xh.Cond(M, "c09_module_a", t(420, 3000), kind=sb, path_timeout=90, examples=["n1=1, m0=2, topsel=1, reopen=1"], bounds="outer namespace a: 9 name combinations x 7 top-namespace choices%s" % (" x re-opened" if not q else "; re-open derived")),
         xh.Cond(M, "c09_module_b", t(420, 3000), kind=sb, path_timeout=90, examples=["n1=0, m0=0, topsel=4, reopen=0"], bounds="outer namespace b: as c09_module_a"),
         xh.Cond(M, "c09_module_ab", t(420, 3000), kind=sb, path_timeout=90, examples=["n1=2, m0=0, topsel=6, reopen=0"], bounds="outer namespace ab: as c09_module_a"),
